@@ -25,8 +25,8 @@ func Load(env types.EnvType) {
 	call.CallOverrideFN(env, "reset!", reset_BANG)
 	call.Call(env, future_call)
 	call.Call(env, future_cancel)
-	call.CallOverrideFN(env, "future-cancelled?", func(f *Future) (bool, error) { return f.Cancelled, nil })
-	call.CallOverrideFN(env, "future-done?", func(f *Future) (bool, error) { return f.Done, nil })
+	call.CallOverrideFN(env, "future-cancelled?", func(f *Future) (bool, error) { return f.IsCancelled(), nil })
+	call.CallOverrideFN(env, "future-done?", func(f *Future) (bool, error) { return f.IsDone(), nil })
 	call.CallOverrideFN(env, "future?", func(f MalType) (bool, error) { return Q[*Future](f), nil })
 	call.Call(env, new_future_call)
 }
@@ -124,8 +124,11 @@ type Future struct {
 	ValChan    chan MalType
 	ErrChan    chan error
 	CancelFunc context.CancelFunc
-	Done       bool
-	Cancelled  bool
+	// Done and Cancelled are shared between the body goroutine and the callers:
+	// they are only read and written under flags
+	flags     sync.Mutex
+	Done      bool
+	Cancelled bool
 
 	Fn     MalFunc
 	Meta   MalType
@@ -148,9 +151,11 @@ func NewFuture(ctx context.Context, fn MalFunc) *Future {
 	go func() {
 		verifhook.Enter(tok)
 		defer verifhook.Exit(tok)
-		defer func() { f.Done = true }()
+		defer f.setDone()
 		defer verifhook.Point("future.delivered")
 		res, err := Apply(ctx, fn, nil)
+		// the future is done before its outcome can be observed by any deref
+		f.setDone()
 		if err != nil {
 			verifhook.Point("future.send")
 			f.ErrChan <- err
@@ -165,6 +170,8 @@ func NewFuture(ctx context.Context, fn MalFunc) *Future {
 
 func (f *Future) Cancel() bool {
 	verifhook.Point("cancel.check")
+	f.flags.Lock()
+	defer f.flags.Unlock()
 	if !f.Done {
 		verifhook.Point("cancel.set")
 		f.Cancelled = true
@@ -172,6 +179,26 @@ func (f *Future) Cancel() bool {
 		f.Done = true
 		f.CancelFunc()
 	}
+	return f.Cancelled
+}
+
+func (f *Future) setDone() {
+	f.flags.Lock()
+	defer f.flags.Unlock()
+	f.Done = true
+}
+
+// IsDone reports whether the future completed or was cancelled.
+func (f *Future) IsDone() bool {
+	f.flags.Lock()
+	defer f.flags.Unlock()
+	return f.Done
+}
+
+// IsCancelled reports whether the future was cancelled before it completed.
+func (f *Future) IsCancelled() bool {
+	f.flags.Lock()
+	defer f.flags.Unlock()
 	return f.Cancelled
 }
 
